@@ -1343,14 +1343,14 @@ func plan(tier string, seed uint64) []workerSpec {
 		k = 20
 	}
 	specs := []workerSpec{
-		{7, 300 * k, fr, 0}, {16, 300 * k, fr, 0}, {17, 300 * k, fr, 0}, {23, 250 * k, fr, 0}, {32, 300 * k, fr, 0},
-		{64, 450 * k, mix, 0}, {100, 400 * k, mix, 0}, {200, 500 * k, tm, 0}, {1024, 100 * k, mix, 0},
-		{128, 60 * k, sp, 0}, {20, 30 * k, []string{"oversize-tail-exact"}, 0},
+		{7, 300 * k, fr, 0, 0}, {16, 300 * k, fr, 0, 0}, {17, 300 * k, fr, 0, 0}, {23, 250 * k, fr, 0, 0}, {32, 300 * k, fr, 0, 0},
+		{64, 450 * k, mix, 0, 0}, {100, 400 * k, mix, 0, 0}, {200, 500 * k, tm, 0, 0}, {1024, 100 * k, mix, 0, 0},
+		{128, 60 * k, sp, 0, 0}, {20, 30 * k, []string{"oversize-tail-exact"}, 0, 0},
 		{0, 200 * k, nil, 0, 0}, // meta codec
 		{64, 40 * k, []string{"overlap"}, 0, 0}, {48, 40 * k, []string{"overlap"}, 0, 1}, {256, 20 * k, []string{"overlap"}, 0, 2},
 	}
 	if tier == "thorough" {
-		specs = append(specs, workerSpec{4096, 300, mix, 0}, workerSpec{33, 300 * k, fr, 0}, workerSpec{257, 200 * k, mix, 0})
+		specs = append(specs, workerSpec{4096, 300, mix, 0, 0}, workerSpec{33, 300 * k, fr, 0, 0}, workerSpec{257, 200 * k, mix, 0, 0})
 	}
 	for i := range specs {
 		specs[i].Seed = r.U64()
@@ -1369,6 +1369,32 @@ func main() {
 		var spec workerSpec
 		if err := json.Unmarshal([]byte(*wk), &spec); err != nil {
 			panic(err)
+		}
+		if spec.N == -2 { // replay of a history read from stdin, repeated until it shows or 30 times
+			var h []histItem
+			if err := json.NewDecoder(os.Stdin).Decode(&h); err != nil {
+				panic(err)
+			}
+			maxDoc := 64
+			for _, it := range h {
+				it.Request.body, _ = hex.DecodeString(it.Request.BodyHex)
+				maxDoc = it.Request.MaxDoc
+			}
+			bw := bufio.NewWriter(os.Stdout)
+			enc := json.NewEncoder(bw)
+			e := newEnvN(maxDoc, 8)
+			for i := 0; i < 30; i++ {
+				var recs []record
+				bad := runHistory(e, h, func(rc record) { recs = append(recs, rc) })
+				if bad || i == 29 {
+					for _, rc := range recs {
+						enc.Encode(rc)
+					}
+					break
+				}
+			}
+			bw.Flush()
+			return
 		}
 		if spec.N < 0 { // replay of one request read from stdin
 			var rq request
@@ -1420,11 +1446,27 @@ func main() {
 			}
 			switch rc.Kind {
 			case "case":
+				if rc.Hist != nil {
+					w.Add(rc.Coq, rc.Class, rc.Nontrivial, map[string]any{"history": rc.Hist}, rc.ObsList)
+					if *replay != "" {
+						for i, o := range rc.ObsList {
+							fmt.Printf("replay: history[%d] role=%s status=%d created=%d calls=%d docs=%q\n", i, rc.Hist[i].Role, o.Status, o.Created, o.Calls, o.Docs)
+						}
+					}
+					continue
+				}
 				w.Add(rc.Coq, rc.Class, rc.Nontrivial, map[string]any{"request": rc.Req}, rc.Obs)
 				if *replay != "" {
 					fmt.Printf("replay: class=%s status=%d created=%d calls=%d docs=%q mids=%v\n", rc.Class, rc.Obs.Status, rc.Obs.Created, rc.Obs.Calls, rc.Obs.Docs, rc.Obs.Mids)
 				}
 			case "viol":
+				if rc.Hist != nil {
+					w.Violate(rc.Fp, rc.What, map[string]any{"history": rc.Hist})
+					if *replay != "" {
+						fmt.Printf("replay: VIOLATION %s: %s\n", rc.Fp, rc.What)
+					}
+					continue
+				}
 				w.Violate(rc.Fp, rc.What, map[string]any{"request": rc.Req, "observed": rc.Obs})
 			case "count":
 				w.Count(rc.Key)
@@ -1435,6 +1477,9 @@ func main() {
 		js, _ := json.Marshal(spec)
 		cmd := exec.Command(self, "-worker", string(js))
 		cmd.Env = append(os.Environ(), "LOG_LEVEL=fatal")
+		if spec.Procs > 0 {
+			cmd.Env = append(cmd.Env, fmt.Sprintf("GOMAXPROCS=%d", spec.Procs))
+		}
 		cmd.Stdin = bytes.NewReader(stdin)
 		var so, se bytes.Buffer
 		cmd.Stdout = &so
@@ -1459,10 +1504,12 @@ func main() {
 				Case struct {
 					Input struct {
 						Request json.RawMessage `json:"request"`
+						History json.RawMessage `json:"history"`
 					} `json:"input"`
 				} `json:"case"`
 				Input struct {
 					Request json.RawMessage `json:"request"`
+					History json.RawMessage `json:"history"`
 				} `json:"input"`
 			} `json:"replay"`
 		}
@@ -1472,6 +1519,18 @@ func main() {
 		rq := rp.Replay.Case.Input.Request
 		if rq == nil {
 			rq = rp.Replay.Input.Request
+		}
+		hist := rp.Replay.Case.Input.History
+		if hist == nil {
+			hist = rp.Replay.Input.History
+		}
+		if hist != nil {
+			// the history is repeated in a fresh process (which Ps the requests run on is up to the scheduler)
+			consume(child(workerSpec{N: -2}, hist))
+			if err := w.Close(); err != nil {
+				panic(err)
+			}
+			return
 		}
 		consume(child(workerSpec{N: -1}, rq))
 		if err := w.Close(); err != nil {
